@@ -66,6 +66,7 @@ func (s *Server) handlePropagatedRequest(m *nats.Msg) {
 	if err != nil {
 		panic(err)
 	}
+	verifTrace("propagate.responded", s.config.Clustering.ServerID, resp)
 	if err := m.Respond(data); err != nil {
 		s.logger.Errorf("Failed to respond to propagated request: %v", err)
 	}
